@@ -104,7 +104,7 @@ def parse_work(arg):
                 tree, _ = build(shp, operands, ops) if n else (operands[0], 1)
                 is_nat = False
             # the expression in every statement position that takes one (the grouping must not depend on the host)
-            host = rng.randrange(12)
+            host = rng.randrange(16)
             if host == 0:
                 prog = [A.Assign(A.Var('r'), tree)]
             elif host == 1:
@@ -123,6 +123,14 @@ def parse_work(arg):
                 prog = [A.Declare(A.Var('r'), A.ObjectE([A.Pair(tree, A.Int(1)), A.Pair(A.Str("v"), A.clone(tree))]))]
             elif host == 8:
                 prog = [A.Declare(A.Var('r'), A.Index(A.Var("xs"), tree)), A.Assign(A.RangeIndex(A.Var("xs"), A.clone(tree), None), A.lst())]
+            elif host == 9:
+                prog = [A.Declare(A.Var('r'), A.RangeIndex(A.Var("xs"), None, tree)), A.Declare(A.Var('q'), A.RangeIndex(A.Var("xs"), A.clone(tree), A.clone(tree)))]
+            elif host == 10:
+                prog = [A.Declare(A.Var('r'), A.ListE([(tree, False), (A.clone(tree), False)], False)), A.Declare(A.Var('q'), A.ListE([(A.Int(0), False), (A.clone(tree), True)], False))]
+            elif host == 11:
+                prog = [A.ExprStmt(A.Call(A.Var("f"), [(tree, False), (A.clone(tree), True)])), A.Declare(A.lst(A.Var("p"), A.Index(A.Var("xs"), A.clone(tree))), A.Var("ys"))]
+            elif host == 12:
+                prog = [A.Declare(A.Var('r'), A.IStr(["a", tree, "b"]))] if not _has_string(tree) else [A.Declare(A.Var('r'), tree)]
             else:
                 prog = [A.Declare(A.Var('r'), tree)]
             variants = [("minimal", P.Layout())]
@@ -177,6 +185,11 @@ def _starts_with_brace(e):
             e = e.e
         else:
             return False
+
+
+def _has_string(e):
+    """string literals inside a slot need care with quoting: keep those trees out of slots"""
+    return any(isinstance(n, (A.Str, A.StrLit, A.IStr, A.ObjectE)) for n in A.walk(e))
 
 
 def _strip_operand_parens(text, operands):
